@@ -1,6 +1,6 @@
 SPECIFICATION Spec
 CONSTANTS
- MaxReinit = 0  FixLostWorker = FALSE
+ MaxReinit = 0  FixLostWorker = TRUE
  CountCalls = TRUE
  NW = 3  BS = 3  Total = 10  Chunk = 2  HdrSz = 2  TailSz = 3
  Timeout = TRUE  Spurious = TRUE  MayFail = TRUE
